@@ -7,7 +7,7 @@ git apply "$patch" || { echo "patch does not apply"; exit 2; }
 cd /verif
 for c in "$@"; do
   echo "--- $c against $(basename $(dirname $(dirname $patch)))/$(basename $patch)"
-  timeout 1200 ./check $c --tier quick --no-evidence 2>&1 | grep -E "^VIOLATION|^KNOWN|^INCONCLUSIVE|tier=|^    " | head -8
+  timeout 1200 ./check $c --tier quick --no-evidence 2>&1 | grep -aE "^VIOLATION|^KNOWN|^INCONCLUSIVE|tier=|^    " | head -8
 done
 git -C /repo checkout -- . 
 git -C /repo status --short | head
